@@ -25,7 +25,7 @@ EXTENDS Certs, TraceLib
 CONSTANT Prop
 VARIABLES l, st
 
-LimitBits == 512      \* size assertion of the modular ring; README says 500, the CLI admits 512
+LimitBits == 500      \* documented limit (README); the ring asserts 512 and the CLI admits 512: 501..512 may answer or refuse, not crash
 
 -----------------------------------------------------------------------------
 (* certified primes: the certificate file named by CERTS is validated (op "cert", Witness) by a run of this
